@@ -438,6 +438,29 @@ class Interp:
             return set(self.TOP_INT)
         return set(self.TOP_INT)
 
+    def small_counted_loop(self, fn, n):
+        """is n the increment `i++` of `for (...; i < C; i++)` with a compile-time constant C <= 8 (ARRAY_SIZE of a small table)?
+        Such loops are unrolled exactly instead of being widened: per-element precision at no real cost."""
+        key = (fn.name, n["id"])
+        c = self._elem_cache.get(("scl", key))
+        if c is not None:
+            return c
+        res = False
+        par = fn.nodes.get(fn.parent.get(n["id"]))
+        if par is not None and par["k"] == "ForStmt" and par.get("inc") == n["id"] and par.get("cond") is not None:
+            cond = strip(fn.nodes[par["cond"]])
+            if cond["k"] == "BinaryOperator" and cond["op"] in ("<", "!=", "<="):
+                lhs, rhs = strip(cond["c"][0]), strip(cond["c"][1])
+                sub = strip(n["c"][0])
+                if lhs["k"] == "DeclRefExpr" and sub["k"] == "DeclRefExpr" and lhs.get("did") == sub.get("did") \
+                        and isinstance(rhs.get("val"), int) and 0 <= rhs["val"] <= 8:
+                    body_writes = [x for x in walk_nodes(fn.nodes[par["body"]]) if x["k"] in ("UnaryOperator", "BinaryOperator", "CompoundAssignOperator")
+                                   and x.get("op") in ("++", "--", "=", "+=", "-=") and strip(x["c"][0])["k"] == "DeclRefExpr"
+                                   and strip(x["c"][0]).get("did") == sub.get("did")]
+                    res = not body_writes
+        self._elem_cache[("scl", key)] = res
+        return res
+
     def widen_step(self, op, old, new):
         """induction steps (x++, x += e) are widened to a half line at once so loops are not unrolled
         through the tracked constants"""
@@ -903,7 +926,8 @@ class Interp:
             cells = self.lval(sub, st, fn)
             old = self.load_cells(st, cells, sub.get("ct") or sub.get("t"))
             new = self.arith("+" if n["op"] == "++" else "-", old, frozenset({1}))
-            new = self.widen_step("+" if n["op"] == "++" else "-", old, new)
+            if not self.small_counted_loop(fn, n):
+                new = self.widen_step("+" if n["op"] == "++" else "-", old, new)
             s = self.store(st, cells, new, fn, n)
             s.tmp[(fn.name, "t", n["id"])] = old if n.get("postfix") else new
             return [s]
